@@ -744,3 +744,165 @@ pub fn check_journal_cuts(
     let _ = std::fs::remove_file(&full);
     (done, torn)
 }
+
+/* ---------------------------------------------------------------------------------------- */
+/* C12: batched cancel records spanning several jobs                                        */
+/* ---------------------------------------------------------------------------------------- */
+
+/// The quantifier of C12 includes cancel records that span live and completed jobs. The running
+/// server writes one batch per job, so such a journal is derived from the real one: a contiguous
+/// run `JobCancel(A) TasksCanceled(A..) [JobCompleted(A)|JobIdle(A)] JobCancel(B) TasksCanceled(B..) ..`
+/// (written by one multi-job cancel request) is rewritten to
+/// `JobCancel(A) JobCancel(B) .. TasksCanceled(A.. B..) [JobCompleted(A)] ..`, jobs that are not
+/// live at the prune first. The derived journal must restore like the original (otherwise the
+/// derivation is not trusted and nothing is judged); then the real prune is applied to it with
+/// the live sets of the real prune request and the two restarts are compared.
+/// Returns Some(true) if a derived journal was judged.
+pub fn check_prune_batched(
+    world: &World,
+    live_jobs: &tako::Set<tako::JobId>,
+    live_workers: &tako::Set<tako::WorkerId>,
+    step: u64,
+    out: &mut Vec<Finding>,
+) -> Option<bool> {
+    use hyperqueue::server::event::Event;
+    use hyperqueue::server::event::journal::{JournalReader, JournalWriter, verif_prune_journal};
+    use hyperqueue::server::event::payload::EventPayload;
+
+    let before_path = world.scratch.join("journal.before_prune");
+    let before = std::fs::read(&before_path).ok()?;
+    let mut reader = JournalReader::open(&before_path).ok()?;
+    let events: Vec<Event> = (&mut reader).collect::<Result<Vec<_>, _>>().ok()?;
+    drop(reader);
+
+    struct Group {
+        job: tako::JobId,
+        cancel: Event,
+        tasks: Vec<tako::TaskId>,
+        time: Event,
+        tail: Vec<Event>,
+    }
+    let mut result: Vec<Event> = Vec::with_capacity(events.len());
+    let mut applied = false;
+    let mut i = 0;
+    while i < events.len() {
+        // collect consecutive groups
+        let mut groups: Vec<Group> = Vec::new();
+        let mut j = i;
+        loop {
+            let Some(Event {
+                payload: EventPayload::JobCancel { job_id, .. },
+                ..
+            }) = events.get(j)
+            else {
+                break;
+            };
+            let Some(
+                tc @ Event {
+                    payload: EventPayload::TasksCanceled { task_ids },
+                    ..
+                },
+            ) = events.get(j + 1)
+            else {
+                break;
+            };
+            if task_ids.iter().any(|t| t.job_id() != *job_id) {
+                break;
+            }
+            let mut g = Group {
+                job: *job_id,
+                cancel: events[j].clone(),
+                tasks: task_ids.clone(),
+                time: tc.clone(),
+                tail: Vec::new(),
+            };
+            j += 2;
+            while let Some(e) = events.get(j) {
+                match &e.payload {
+                    EventPayload::JobCompleted(id) | EventPayload::JobIdle(id) if id == job_id => {
+                        g.tail.push(e.clone());
+                        j += 1;
+                    }
+                    _ => break,
+                }
+            }
+            groups.push(g);
+        }
+        if groups.len() >= 2 {
+            applied = true;
+            // jobs that are not live at the prune come first in the batch
+            groups.sort_by_key(|g| live_jobs.contains(&g.job));
+            for g in &groups {
+                result.push(g.cancel.clone());
+            }
+            let mut merged = groups[0].time.clone();
+            merged.payload = EventPayload::TasksCanceled {
+                task_ids: groups.iter().flat_map(|g| g.tasks.iter().copied()).collect(),
+            };
+            result.push(merged);
+            for g in &groups {
+                result.extend(g.tail.iter().cloned());
+            }
+            i = j;
+        } else {
+            result.push(events[i].clone());
+            i += 1;
+        }
+    }
+    if !applied {
+        return Some(false);
+    }
+    let t_path = world.scratch.join("journal.batched");
+    let tp_path = world.scratch.join("journal.batched_pruned");
+    let _ = std::fs::remove_file(&t_path);
+    let _ = std::fs::remove_file(&tp_path);
+    {
+        let mut w = JournalWriter::create(&t_path).ok()?;
+        for e in result {
+            w.store(e).ok()?;
+        }
+        w.finish().ok()?;
+    }
+    {
+        let mut r = JournalReader::open(&t_path).ok()?;
+        let mut w = JournalWriter::create(&tp_path).ok()?;
+        if let Err(e) = verif_prune_journal(&mut r, &mut w, live_jobs, live_workers) {
+            fnd(
+                out,
+                "C12",
+                "prune-fails",
+                "batched-records",
+                format!("pruning a journal with a cancel record spanning several jobs failed: {e:?}"),
+                step,
+            );
+            return Some(true);
+        }
+        w.finish().ok()?;
+    }
+    let t_bytes = std::fs::read(&t_path).ok()?;
+    let tp_bytes = std::fs::read(&tp_path).ok()?;
+    let w0 = restart_from(world, &before, "prune_c");
+    let wa = restart_from(world, &t_bytes, "prune_d");
+    let s0 = restart_summary(&w0);
+    let a = restart_summary(&wa);
+    if s0 != a {
+        // the derived journal is not equivalent to the original: do not judge
+        return Some(false);
+    }
+    let wb = restart_from(world, &tp_bytes, "prune_e");
+    let b = restart_summary(&wb);
+    if a != b {
+        let detail = diff_summaries(&a, &b);
+        fnd(
+            out,
+            "C12",
+            "prune-changes-restart",
+            "batched-cancel-record-spanning-jobs",
+            format!(
+                "journal derived from the real one by merging the cancel records of one multi-job cancel into one batch: restarting from its pruned version differs from restarting from it: {detail}"
+            ),
+            step,
+        );
+    }
+    Some(true)
+}
